@@ -8,7 +8,7 @@ use vcore::palette::{self, nearest, xterm240, Rgb};
 use vcore::rt::{self, Acc, Args, Report};
 use vcore::sgr::{ansi_index, ANSI_COLORS};
 
-const RULE: &str = "Inputs: RGB values from a 18^3 lattice, every candidate colour +-1 per channel, midpoints (+-1) between pairs of candidates, seeded random values (quick); ALL 2^24 RGB values (thorough). Targets: the 240 fixed colours of the 256-colour palette, and the 16-colour palette under VGA, Windows-10 and 20 more palettes (all-equal, duplicated entries, extremes only, 8 palettes clustered within 16 units of one cube corner each, an 8-colour palette doubled, halves swapped, 4 doubled palettes with sum-preserving transfers inside the bright half, 3 seeded random). All 256 indices and 16 palette colours for the remaining conversions. Oracle: brute-force search in i64 with the red-mean weighted distance, lowest index on ties; table by formula. Non-trivial = the input is not itself a candidate (distance > 0), distinct by (input, palette); ties are counted as a class.";
+const RULE: &str = "Inputs: RGB values from a 18^3 lattice, every candidate colour +-1 per channel, midpoints (+-1) between pairs of candidates, seeded random values (quick); ALL 2^24 RGB values (thorough). Targets: the 240 fixed colours of the 256-colour palette, and the 16-colour palette under VGA, Windows-10 and 22 more palettes (incl. entries one channel step apart) (all-equal, duplicated entries, extremes only, 8 palettes clustered within 16 units of one cube corner each, an 8-colour palette doubled, halves swapped, 4 doubled palettes with sum-preserving transfers inside the bright half, 3 seeded random). All 256 indices and 16 palette colours for the remaining conversions. Oracle: brute-force search in i64 with the red-mean weighted distance, lowest index on ties; table by formula. Non-trivial = the input is not itself a candidate (distance > 0), distinct by (input, palette); ties are counted as a class.";
 
 fn to_rgb(c: Rgb) -> RgbColor {
     RgbColor(c.0, c.1, c.2)
@@ -55,6 +55,19 @@ fn palettes(seed: u64) -> Vec<(String, [Rgb; 16])> {
         }
         v.push((format!("cluster-{corner}"), p));
     }
+    // near-duplicates: pairs of entries one channel step apart, the pair's members at different indices
+    let mut near = palette::VGA;
+    near[8] = (near[7].0, near[7].1 + 1, near[7].2);
+    near[3] = (near[2].0, near[2].1, near[2].2 + 1);
+    near[12] = (near[11].0 - 1, near[11].1, near[11].2);
+    near[15] = (near[14].0, near[14].1 - 1, near[14].2);
+    v.push(("near-duplicates".to_owned(), near));
+    let mut ramp = [(0u8, 0u8, 0u8); 16];
+    for (i, e) in ramp.iter_mut().enumerate() {
+        // a grey ramp in single steps, and the same in blue only
+        *e = if i < 8 { (100 + i as u8, 100 + i as u8, 100 + i as u8) } else { (10, 20, 200 + (i as u8 - 8)) };
+    }
+    v.push(("single-step-ramps".to_owned(), ramp));
     // 8-colour palettes (bright half = normal half), plain and with sum-preserving transfers inside the
     // bright half: the halves then differ although every aggregate (per-channel sums) is equal
     let mut doubled = palette::VGA;
